@@ -147,13 +147,15 @@ def declarations(path):
     return decls
 
 
-def print_axioms(prop_module, theorems):
+def print_axioms(prop_module, theorems, extra_imports=()):
     """#print axioms for each named theorem, via a throw-away file run under `lake env lean`"""
     if not theorems:
         return {}
     audit = os.path.join(LEAN, ".lake", "audit_%s_%d.lean" % (prop_module.replace(".", "_"), os.getpid()))
     with open(audit, "w") as f:
         f.write("import %s\n" % prop_module)
+        for m in extra_imports:
+            f.write("import %s\n" % m)
         for t in theorems:
             f.write("#print axioms %s\n" % t)
     rc, out, err, dt = sh(["lake", "env", "lean", audit], cwd=LEAN)
@@ -209,10 +211,11 @@ def proof_stage(prop_module, extra_modules=(), namespace_hint=None):
         info["ok"] = False
         info["problems"] += ["forbidden construct: " + h for h in hits]
     info["discharged"] = len(decls) - len(failed) if rc != 0 else len(decls)
-    # property theorems = named theorems in the Props module
-    ppath = files.get(prop_module)
+    # property theorems = named theorems in the Props module (and in the extra Props modules)
     thms = []
-    if ppath and os.path.exists(ppath):
+    for pm in [prop_module] + [m for m in extra_modules if ".Props." in m]:
+      ppath = files.get(pm)
+      if ppath and os.path.exists(ppath):
         src = strip_lean_comments(open(ppath).read())
         # fully qualified names: track `namespace X` / `end X` by position
         marks = [(m.start(), "ns", m.group(1)) for m in re.finditer(r"^namespace\s+([\w\.]+)", src, re.M)]
@@ -230,7 +233,7 @@ def proof_stage(prop_module, extra_modules=(), namespace_hint=None):
     info["property_theorems"] = [t.split(".")[-1] for t in thms]
     info["axioms"] = {}
     if rc == 0:
-        ax = print_axioms(prop_module, thms)
+        ax = print_axioms(prop_module, thms, extra_imports=[m for m in extra_modules if ".Props." in m])
         for t, a in ax.items():
             info["axioms"][t.split(".")[-1]] = a
             if a is None:
